@@ -49,11 +49,12 @@ inline void genMembers(Plan& p, Rng& r, size_t maxMembers, size_t maxLen, bool a
 	switch (r.below(5)) { case 0: n = 0; break; case 1: n = 1; break; default: n = r.range(1, maxMembers); break; }
 	if (maxMembers >= 8 && r.chance(1, 10)) n = r.range(17, 40); // beyond the sizes at which an implementation might switch its search strategy
 	std::vector<std::string> names;
+	bool twinStart = n >= 2 && r.chance(1, 4);
 	for (size_t i = 0; i < n; ++i) {
 		std::string nm = randName(r, 1, 12, true);
 		if (!names.empty() && r.chance(1, 3)) { const std::string& o = names[r.below(names.size())]; nm = o.substr(0, 1 + r.below(o.size())) + randName(r, 1, 2, false); }
 		if (!names.empty() && r.chance(1, 5)) nm = tieProneSibling(names[r.below(names.size())], r);
-		if (r.chance(1, 8)) nm = digestTwin(names, r, 40); // different names with one 32-bit digest
+		if (r.chance(1, 8) || (i < 2 && twinStart)) nm = digestTwin(names, r, 40); // different names with one 32-bit digest (every fourth world starts with such a pair)
 		if (!names.empty() && r.chance(1, 4)) { std::string sib = bit5Sibling(names[r.below(names.size())], r); if (!sib.empty()) nm = sib; }
 		else if (r.chance(1, 6)) { static const char* P[] = {"[", "{", "@", "`", "^", "~", "]", "}"}; nm.insert(r.below(nm.size() + 1), P[r.below(8)]); }
 		names.push_back(nm);
